@@ -8,7 +8,7 @@ EXHAUSTIVE = True
 CHUNK = 1
 CASE_TIMEOUT = 900
 RULE = ("differential exploration, every pair run as two fresh assemblies of the real code: (1) '.repeat n { body }' vs the body written n "
-        "times for all body sequences up to the depth bound over a 37-statement body alphabet that contains every operand form and "
+        "times for all body sequences up to the depth bound over a 43-statement body alphabet that contains every operand form and "
         "expression shape ('.' under / % * >> << &, indexed operands with symbolic and compound offsets, PC-relative and immediate '.', "
         "branches to .+-n, .even/.odd/.align, .blkb and .repeat whose size or count depends on '.', nested repeats to depth 3), n in "
         "0..4 and 8 (40 for single statements), count written as a constant and as a later-defined symbol, loop start at even and odd "
@@ -26,7 +26,7 @@ BODY = [
     ".word .", ".word ./2", ".word .%7", ".word <.*.>&177777", ".word .>>1", ".word .<<1&177777", ".word <.-bse>/2", ".word .+x", ".word x*2",
     ".byte .&377", ".rad50 /AB/< <.-bse>&7 >", ".ascii <.&177>/z/", ".asciz /q/<<.-bse>&77>",
     "mov 2+x(r0), r1", "mov -x(r0), r1", "clr @2+x(r0)", "mov x(r2), 2+x(r3)", "mov #., r1", "mov ., r1", "jmp @#.+2", "mov #<.-bse>/2, r1",
-    "br .+4", "br .-2", "sob r1, .",
+    "br .+4", "br .-2", "sob r1, .", "inc bse", "mov @bse, r0", "br bse", "sob r2, bse", "jsr pc, bse", "mov #bse, bse",
     ".blkb .&3", ".repeat .&3 { .byte 5 }", ".repeat 2 { .byte 1\n .even }", ".repeat 2 { .repeat 2 { .word . } }",
 ]
 NS = [0, 1, 2, 3, 4, 8]   # quick: bodies of two statements use n in 0..3 and alternate start parity / count spelling
@@ -42,7 +42,7 @@ FILES6 = [
 
 
 def bound(tier):
-    return "repeat bodies of <= %d statements (37-statement alphabet) x n in %s x 2 count spellings x 2 start parities x 3 link regimes; 258 file tuples; insert lengths %s; .end/.once families complete" % (
+    return "repeat bodies of <= %d statements (43-statement alphabet) x n in %s x 2 count spellings x 2 start parities x 3 link regimes; 258 file tuples; insert lengths %s; .end/.once families complete" % (
         3 if tier == "thorough" else 2, NS, "0..300" if tier == "thorough" else "0..40,255,256,300")
 
 
